@@ -4,6 +4,8 @@ import (
 	"fmt"
 	"math"
 	"strings"
+	"sync"
+	"unsafe"
 )
 
 // Terms: bit-vectors (W = 8,16,32,64) and booleans (W = 0).
@@ -87,30 +89,60 @@ func Bool(b bool) *Term {
 	return tFalse
 }
 
-var smallConst [4][300]*Term
-
-func widx(w uint8) int {
-	switch w {
-	case 8:
-		return 0
-	case 16:
-		return 1
-	case 32:
-		return 2
+func Const(w uint8, v uint64) *Term {
+	if w == 0 {
+		return Bool(v&1 == 1)
 	}
-	return 3
+	v &= mask(w)
+	return mk(Term{Op: OConst, W: w, V: v})
 }
 
-func Const(w uint8, v uint64) *Term {
-	v &= mask(w)
-	if v < 300 {
-		p := &smallConst[widx(w)][v]
-		if *p == nil {
-			*p = &Term{Op: OConst, W: w, V: v}
-		}
-		return *p
+// Hash-consing: structurally equal terms are pointer-equal (as long as both
+// are alive in the table), so repeated conditions over the same symbolic data
+// (e.g. lexing the same bytes twice) are recognised without a solver query.
+// The table is only an optimisation: shards are cleared when they grow large,
+// which loses sharing but never soundness.
+type termKey struct {
+	Op      Op
+	W       uint8
+	F       bool
+	A, B, C *Term
+	V       uint64
+	Name    string
+}
+
+const consShards = 512
+
+var consTab [consShards]struct {
+	mu sync.Mutex
+	m  map[termKey]*Term
+	_  [40]byte
+}
+
+func mk(t Term) *Term {
+	k := termKey{t.Op, t.W, t.F, t.A, t.B, t.C, t.V, t.Name}
+	h := uint64(t.Op)*0x9E3779B97F4A7C15 ^ t.V*0xC2B2AE3D27D4EB4F ^ uint64(t.W)<<56
+	h ^= uint64(uintptr(unsafe.Pointer(t.A))) * 0x165667B19E3779F9
+	h ^= uint64(uintptr(unsafe.Pointer(t.B))) * 0x27D4EB2F165667C5
+	h ^= uint64(uintptr(unsafe.Pointer(t.C))) * 0x9E3779B185EBCA87
+	for i := 0; i < len(t.Name); i++ {
+		h = h*31 + uint64(t.Name[i])
 	}
-	return &Term{Op: OConst, W: w, V: v}
+	h ^= h >> 29
+	sh := &consTab[h%consShards]
+	sh.mu.Lock()
+	if sh.m == nil || len(sh.m) > 8000 {
+		sh.m = make(map[termKey]*Term, 1024)
+	}
+	if p, ok := sh.m[k]; ok {
+		sh.mu.Unlock()
+		return p
+	}
+	p := new(Term)
+	*p = t
+	sh.m[k] = p
+	sh.mu.Unlock()
+	return p
 }
 
 func (t *Term) IsConst() bool { return t.Op == OConst }
@@ -132,7 +164,7 @@ func Not(a *Term) *Term {
 	if a.Op == ONot {
 		return a.A
 	}
-	return &Term{Op: ONot, A: a}
+	return mk(Term{Op: ONot, A: a})
 }
 func And(a, b *Term) *Term {
 	if a.IsConst() {
@@ -150,7 +182,7 @@ func And(a, b *Term) *Term {
 	if a == b {
 		return a
 	}
-	return &Term{Op: OAnd, A: a, B: b}
+	return mk(Term{Op: OAnd, A: a, B: b})
 }
 func Or(a, b *Term) *Term {
 	if a.IsConst() {
@@ -168,7 +200,7 @@ func Or(a, b *Term) *Term {
 	if a == b {
 		return a
 	}
-	return &Term{Op: OOr, A: a, B: b}
+	return mk(Term{Op: OOr, A: a, B: b})
 }
 func Eq(a, b *Term) *Term {
 	if a == b {
@@ -192,7 +224,7 @@ func Eq(a, b *Term) *Term {
 			return Not(a)
 		}
 	}
-	return &Term{Op: OEq, A: a, B: b}
+	return mk(Term{Op: OEq, A: a, B: b})
 }
 func Ite(c, a, b *Term) *Term {
 	if c.IsConst() {
@@ -207,7 +239,7 @@ func Ite(c, a, b *Term) *Term {
 	if a.IsConst() && b.IsConst() && a.V == b.V {
 		return a
 	}
-	return &Term{Op: OIte, W: a.W, F: a.F, A: c, B: a, C: b}
+	return mk(Term{Op: OIte, W: a.W, F: a.F, A: c, B: a, C: b})
 }
 
 func Bin(op Op, a, b *Term) *Term {
@@ -299,7 +331,7 @@ func Bin(op Op, a, b *Term) *Term {
 			return a
 		}
 	}
-	return &Term{Op: op, W: rw, A: a, B: b}
+	return mk(Term{Op: op, W: rw, A: a, B: b})
 }
 
 func Zext(a *Term, w uint8) *Term {
@@ -309,7 +341,7 @@ func Zext(a *Term, w uint8) *Term {
 	if a.IsConst() {
 		return Const(w, a.V)
 	}
-	return &Term{Op: OZext, W: w, A: a}
+	return mk(Term{Op: OZext, W: w, A: a})
 }
 func Sext(a *Term, w uint8) *Term {
 	if a.W == w {
@@ -318,7 +350,7 @@ func Sext(a *Term, w uint8) *Term {
 	if a.IsConst() {
 		return Const(w, uint64(sx(a.W, a.V)))
 	}
-	return &Term{Op: OSext, W: w, A: a}
+	return mk(Term{Op: OSext, W: w, A: a})
 }
 func Trunc(a *Term, w uint8) *Term {
 	if a.W == w {
@@ -330,7 +362,7 @@ func Trunc(a *Term, w uint8) *Term {
 	if (a.Op == OZext || a.Op == OSext) && a.A.W == w {
 		return a.A
 	}
-	return &Term{Op: OExtract, W: w, A: a}
+	return mk(Term{Op: OExtract, W: w, A: a})
 }
 
 func sortStr(w uint8) string {
@@ -529,7 +561,7 @@ func b2u(b bool) uint64 {
 
 // ---------- floating point ----------
 
-func FConst(f float64) *Term { return &Term{Op: OConst, W: 64, F: true, V: math.Float64bits(f)} }
+func FConst(f float64) *Term { return mk(Term{Op: OConst, W: 64, F: true, V: math.Float64bits(f)}) }
 func (t *Term) Float() float64 { return math.Float64frombits(t.V) }
 
 func FBin(op Op, a, b *Term) *Term {
@@ -557,9 +589,9 @@ func FBin(op Op, a, b *Term) *Term {
 	}
 	switch op {
 	case OFLt, OFLe, OFEq:
-		return &Term{Op: op, W: 0, A: a, B: b}
+		return mk(Term{Op: op, W: 0, A: a, B: b})
 	}
-	return &Term{Op: op, W: 64, F: true, A: a, B: b}
+	return mk(Term{Op: op, W: 64, F: true, A: a, B: b})
 }
 
 func FUn(op Op, a *Term) *Term {
@@ -581,16 +613,16 @@ func FUn(op Op, a *Term) *Term {
 		}
 	}
 	if op == OFIsNaN {
-		return &Term{Op: op, W: 0, A: a}
+		return mk(Term{Op: op, W: 0, A: a})
 	}
-	return &Term{Op: op, W: 64, F: true, A: a}
+	return mk(Term{Op: op, W: 64, F: true, A: a})
 }
 
 func BV2F(a *Term) *Term {
 	if a.IsConst() {
-		return &Term{Op: OConst, W: 64, F: true, V: a.V}
+		return mk(Term{Op: OConst, W: 64, F: true, V: a.V})
 	}
-	return &Term{Op: OBV2F, W: 64, F: true, A: a}
+	return mk(Term{Op: OBV2F, W: 64, F: true, A: a})
 }
 
 // Int2F converts a bit-vector (signed or unsigned reading) to float64.
@@ -602,9 +634,9 @@ func Int2F(a *Term, signed bool) *Term {
 		return FConst(float64(a.V))
 	}
 	if signed {
-		return &Term{Op: OS2F, W: 64, F: true, A: a}
+		return mk(Term{Op: OS2F, W: 64, F: true, A: a})
 	}
-	return &Term{Op: OU2F, W: 64, F: true, A: a}
+	return mk(Term{Op: OU2F, W: 64, F: true, A: a})
 }
 
 // F2Int models Go's float->signed int conversion on amd64 (CVTTSD2SQ):
@@ -614,7 +646,7 @@ func F2Int(a *Term, w uint8) *Term {
 	if a.IsConst() {
 		return Const(w, uint64(cvttsd2sq(a.Float())))
 	}
-	raw := &Term{Op: OF2S, W: 64, A: a}
+	raw := mk(Term{Op: OF2S, W: 64, A: a})
 	lo := FConst(-9223372036854775808.0)
 	hi := FConst(9223372036854775808.0)
 	inr := And(FBin(OFLe, lo, a), FBin(OFLt, a, hi))
